@@ -29,7 +29,9 @@ ASSUMPTIONS = [
 
 CODE_POOL = ['ADMIN', 'STATE', 'FAM', 'WORKERS', 'FIRM', 'CORP', 'LEVY', 'FOOD', 'WORK', 'JOBS', 'BREAD', 'RICH', 'BANK',
              'FISC', 'X1', 'QQ', 'ALPHA', 'Gv', 'hh', 'Bz', 'NORTH', 'SOUTH', 'ZED', 'K9', 'OIL', 'TOIL', 'MINT', 'OWNERS',
-             'R2', 'D2', 'CITY', 'LAND', 'HH', 'BUS', 'GOV', 'TF', 'LAB', 'CA', 'US']
+             'R2', 'D2', 'CITY', 'LAND', 'HH', 'BUS', 'GOV', 'TF', 'LAB', 'CA', 'US',
+             # identifier-shaped codes need not be ASCII
+             '\u00d6ST', 'M\u00e9nages', '\u00c9tat', 'Soci\u00e9t\u00e9', 'Travail', '\u03a9']
 
 
 @st.composite
@@ -189,8 +191,14 @@ def run_rename(case_):
     for k, m in case_['rename'].items():
         zi, ci = k.split('.')
         rename[(int(zi), int(ci))] = m
-    b1 = econ.build(spec)
-    b2 = econ.build(spec, rename=rename)
+    # one period is solved by the library's own solver as well (its reading of the emitted text is part of what must not
+    # depend on the names); the series themselves are compared on the exact reference solution
+    b1 = econ.build(spec, maxtime=1)
+    b2 = econ.build(spec, rename=rename, maxtime=1)
+    from sfc_models.equation_solver import ConvergenceError
+    if isinstance(b1.error, ConvergenceError) or isinstance(b2.error, ConvergenceError):
+        b1 = econ.build(spec)
+        b2 = econ.build(spec, rename=rename)
     labels, feats = c01.classify(spec)
     skip = set()
     special = False
